@@ -9,7 +9,8 @@ O4 == O3 + NAccessList
 O5 == O4 + NChain
 O6 == O5 + NRandom
 O7 == O6 + NShortSig
-Count == O7 + NSigWidth
+O8 == O7 + NSigWidth
+Count == O8 + NAlWords
 ItemAt(g) ==
   IF g <= O1 THEN PresenceAt(g)
   ELSE IF g <= O2 THEN BoundaryAt(g - O1)
@@ -18,7 +19,8 @@ ItemAt(g) ==
   ELSE IF g <= O5 THEN ChainAt(g - O4)
   ELSE IF g <= O6 THEN RandomAt(g - O5)
   ELSE IF g <= O7 THEN ShortSigAt(g - O6)
-  ELSE SigWidthAt(g - O7)
+  ELSE IF g <= O8 THEN SigWidthAt(g - O7)
+  ELSE AlWordAt(g - O8)
 VARIABLE n
 INSTANCE GenBase
 =============================================================================
